@@ -67,3 +67,166 @@ Theorem stale_after_return_refuted :
   map (fun t => rev (snd t)) ts = [[OAnswer true; OAnswer true]; [OMutated false]] /\
   r_dec (sh_store (list nat) nat sh) 1 = false.
 Proof. vm_compute. split; reflexivity. Qed.
+
+(* ---------- an atomic cache back-end: vakt's own protocol (apply the mutation, THEN notify) keeps the cache fresh ----------
+   Programs: plain decisions, atomic cached asks, and mutations each immediately followed by the invalidation
+   (ObservableMutationStorage: res = storage.op(...); notify()).  Invariant: every cache entry is the decision for the
+   store as it is now, unless some thread is between its mutation and its invalidation.  Hence an ask answered while no
+   mutation is in flight returns the decision for the current store: with such a back-end nothing stale survives the
+   return of add / update / delete.  (The refuted clause above is lru_cache's three-step ask, not this protocol; swapping
+   the two steps of a mutation breaks the invariant at once.) *)
+Section atomic_backend.
+  Variables S M Q : Type.
+  Variable qeq : Q -> Q -> bool.
+  Hypothesis qeq_eq : forall a b, qeq a b = true <-> a = b.
+  Variable mstep : S -> M -> S * bool.
+  Variable dec : S -> Q -> bool.
+  Variable cap : option nat.
+
+  Notation act := (act M Q).
+  Notation tstate := (tstate M Q).
+
+  Fixpoint wf_prog (p : list act) : bool :=
+    match p with
+    | [] => true
+    | ADecide _ _ _ :: r | AAsk _ _ _ :: r => wf_prog r
+    | AMut _ _ _ :: AInval _ _ :: r => wf_prog r
+    | _ => false
+    end.
+  (* what is left of a well-formed program while it runs *)
+  Definition wf_rem (p : list act) : bool :=
+    wf_prog p || match p with AInval _ _ :: r => wf_prog r | _ => false end.
+  Definition in_flight (t : tstate) : bool :=
+    match fst (fst t) with AInval _ _ :: _ => true | _ => false end.
+
+  Definition valid (sh : shared S Q) : Prop :=
+    Forall (fun kv => snd kv = dec (sh_store S Q sh) (fst kv)) (sh_cache S Q sh).
+  Definition Inv (sh : shared S Q) (ts : list tstate) : Prop :=
+    Forall (fun t => wf_rem (fst (fst t)) = true) ts /\ (existsb in_flight ts = true \/ valid sh).
+
+  Lemma find_in q (c : cache Q bool) v : lru_find qeq q c = Some v -> In (q, v) c.
+  Proof.
+    induction c as [|[k x] r IH]; cbn; [discriminate|]. destruct (qeq q k) eqn:E.
+    - intros [= ->]. apply qeq_eq in E. subst. left. reflexivity.
+    - intros H. right. apply IH, H.
+  Qed.
+  Lemma remove_incl q (c : cache Q bool) x : In x (lru_remove qeq q c) -> In x c.
+  Proof.
+    induction c as [|[k y] r IH]; cbn; [tauto|]. destruct (qeq q k); cbn; [tauto|]. intros [H|H]; auto.
+  Qed.
+  Lemma insert_incl q v (c : cache Q bool) x : In x (lru_insert cap q v c) -> x = (q, v) \/ In x c.
+  Proof.
+    unfold lru_insert. destruct cap as [n|].
+    - intros H.
+      assert (F : forall (l : cache Q bool) n0, In x (firstn n0 l) -> In x l).
+      { induction l as [|y l IH]; intros [|n0]; cbn; try tauto. intros [E|E]; [left; exact E|right; eapply IH, E]. }
+      apply F in H. destruct H as [H|H]; auto.
+    - intros [H|H]; auto.
+  Qed.
+
+  Lemma existsb_upd (ts : list tstate) t x :
+    in_flight x = false -> existsb in_flight (upd_nth t x ts) = true -> existsb in_flight ts = true.
+  Proof.
+    revert t. induction ts as [|y r IH]; intros [|t] Hx; cbn; try tauto.
+    - rewrite Hx. cbn. intros H. rewrite H. apply orb_true_r.
+    - intros H. apply orb_true_iff in H as [H|H]; [rewrite H; reflexivity|].
+      rewrite (IH t Hx H). apply orb_true_r.
+  Qed.
+  Lemma existsb_upd_other (ts : list tstate) t x y :
+    nth_error ts t = Some y -> in_flight y = false -> existsb in_flight ts = true ->
+    existsb in_flight (upd_nth t x ts) = true.
+  Proof.
+    revert t. induction ts as [|z r IH]; intros [|t]; cbn; try discriminate.
+    - intros [= ->] Hy H. rewrite Hy in H. cbn in H. rewrite H. apply orb_true_r.
+    - intros Hn Hy H. apply orb_true_iff in H as [H|H]; [rewrite H; reflexivity|].
+      rewrite (IH t Hn Hy H). apply orb_true_r.
+  Qed.
+  Lemma existsb_upd_here (ts : list tstate) t x y :
+    nth_error ts t = Some y -> in_flight x = true -> existsb in_flight (upd_nth t x ts) = true.
+  Proof.
+    revert t. induction ts as [|z r IH]; intros [|t]; cbn; try discriminate.
+    - intros _ ->. reflexivity.
+    - intros Hn Hx. rewrite (IH t Hn Hx). apply orb_true_r.
+  Qed.
+  Lemma Forall_upd (P : tstate -> Prop) (ts : list tstate) t x : Forall P ts -> P x -> Forall P (upd_nth t x ts).
+  Proof.
+    revert t. induction ts as [|y r IH]; intros [|t] H Hx; cbn; auto; inversion H; subst; constructor; auto.
+  Qed.
+
+  Lemma step_inv sh ts t a prog lo outs :
+    Inv sh ts -> nth_error ts t = Some (a :: prog, lo, outs) ->
+    let '(sh', lo', o) := astep S M Q qeq mstep dec cap sh lo a in
+    Inv sh' (upd_nth t (prog, lo', match o with Some x => x :: outs | None => outs end) ts).
+  Proof.
+    intros [Hwf Hv] Hn.
+    assert (Hw : wf_rem (a :: prog) = true).
+    { rewrite Forall_forall in Hwf. apply (Hwf _ (nth_error_In _ _ Hn)). }
+    destruct a as [q|m| |q|q|q|q]; cbn [astep].
+    - (* ADecide *) split.
+      + apply Forall_upd; [exact Hwf|]. cbn in *. unfold wf_rem in *. cbn in Hw. rewrite orb_false_r in Hw.
+        rewrite Hw. reflexivity.
+      + destruct Hv as [Hv|Hv]; [left|right; exact Hv].
+        eapply existsb_upd_other; [exact Hn|reflexivity|exact Hv].
+    - (* AMut *) destruct (mstep (sh_store S Q sh) m) as [s' r] eqn:Em. unfold wf_rem in Hw. cbn in Hw.
+      rewrite orb_false_r in Hw. destruct prog as [|[ | | | | | | ] prog']; try discriminate. split.
+      + apply Forall_upd; [exact Hwf|]. cbn. unfold wf_rem. cbn. rewrite Hw. first [reflexivity | apply orb_true_r].
+      + left. eapply existsb_upd_here; [exact Hn|reflexivity].
+    - (* AInval *) split.
+      + apply Forall_upd; [exact Hwf|]. cbn. unfold wf_rem in *. cbn in Hw. rewrite Hw. reflexivity.
+      + right. unfold valid. cbn. constructor.
+    - unfold wf_rem in Hw. cbn in Hw. discriminate.
+    - unfold wf_rem in Hw. cbn in Hw. discriminate.
+    - unfold wf_rem in Hw. cbn in Hw. discriminate.
+    - (* AAsk *)
+      assert (Hp : wf_rem prog = true).
+      { unfold wf_rem in *. cbn in Hw. rewrite orb_false_r in Hw. rewrite Hw. reflexivity. }
+      destruct (lru_find qeq q (sh_cache S Q sh)) as [v|] eqn:Ef; (split; [apply Forall_upd; assumption|]).
+      + destruct Hv as [Hv|Hv]; [left; eapply existsb_upd_other; [exact Hn|reflexivity|exact Hv]|right].
+        unfold valid in *. cbn. pose proof (find_in _ _ _ Ef) as Hin. rewrite Forall_forall in Hv.
+        constructor; [apply (Hv _ Hin)|]. apply Forall_forall. intros x Hx. apply Hv. eapply remove_incl, Hx.
+      + destruct Hv as [Hv|Hv]; [left; eapply existsb_upd_other; [exact Hn|reflexivity|exact Hv]|right].
+        unfold valid in *. cbn. apply Forall_forall. intros x Hx. apply insert_incl in Hx. destruct Hx as [->|Hx].
+        * reflexivity.
+        * rewrite Forall_forall in Hv. apply Hv, Hx.
+  Qed.
+
+  Theorem atomic_backend_invariant sched : forall sh ts, Inv sh ts ->
+    let '(sh', ts') := exec S M Q qeq mstep dec cap sched sh ts in Inv sh' ts'.
+  Proof.
+    induction sched as [|t r IH]; intros sh ts H; cbn [exec]; [exact H|].
+    destruct (nth_error ts t) as [[[[|a prog] lo] outs]|] eqn:Hn; try (apply IH, H).
+    pose proof (step_inv sh ts t a prog lo outs H Hn) as St.
+    destruct (astep S M Q qeq mstep dec cap sh lo a) as [[sh' lo'] o]. apply IH, St.
+  Qed.
+
+  (* whenever no mutation is between its two steps, every cache entry is the decision for the store as it is: an atomic
+     ask answered then returns the decision for the current store *)
+  Theorem atomic_backend_fresh progs sched s0 :
+    forallb wf_prog progs = true ->
+    let '(sh, ts) := exec S M Q qeq mstep dec cap sched {| sh_store := s0; sh_cache := [] |} (init_threads M Q progs) in
+    existsb in_flight ts = false ->
+    forall q lo, snd (astep S M Q qeq mstep dec cap sh lo (AAsk M Q q)) = Some (OAnswer (dec (sh_store S Q sh) q)).
+  Proof.
+    intros Hwf.
+    assert (I0 : Inv {| sh_store := s0; sh_cache := [] |} (init_threads M Q progs)).
+    { split; [|right; constructor]. unfold init_threads. apply Forall_forall. intros t Ht.
+      apply in_map_iff in Ht. destruct Ht as [p [<- Hp]]. cbn. unfold wf_rem.
+      rewrite forallb_forall in Hwf. rewrite (Hwf p Hp). reflexivity. }
+    pose proof (atomic_backend_invariant sched _ _ I0) as H.
+    destruct (exec S M Q qeq mstep dec cap sched {| sh_store := s0; sh_cache := [] |} (init_threads M Q progs)) as [sh ts].
+    destruct H as [_ [Hf|Hv]]; intros Hno; [rewrite Hf in Hno; discriminate|].
+    intros q lo. cbn [astep]. destruct (lru_find qeq q (sh_cache S Q sh)) as [v|] eqn:Ef; cbn; [|reflexivity].
+    unfold valid in Hv. rewrite Forall_forall in Hv. pose proof (Hv _ (find_in _ _ _ Ef)) as E. cbn in E. rewrite E. reflexivity.
+  Qed.
+End atomic_backend.
+
+(* the two steps of a mutation swapped (invalidate first, then apply): even an atomic back-end serves a stale answer *)
+Definition sw_progs : list (list (act nat nat)) :=
+  [ [AAsk nat nat 1; AAsk nat nat 1]; [AInval nat nat; AMut nat nat 1] ].
+Definition sw_sched : list nat := [1; 0; 1; 0].
+Theorem swapped_protocol_stale :
+  let '(sh, ts) := exec (list nat) nat nat Nat.eqb r_mstep r_dec None sw_sched
+                        {| sh_store := []; sh_cache := [] |} (init_threads nat nat sw_progs) in
+  map (fun t => rev (snd t)) ts = [[OAnswer true; OAnswer true]; [OMutated false]] /\
+  r_dec (sh_store (list nat) nat sh) 1 = false.
+Proof. vm_compute. split; reflexivity. Qed.
